@@ -3,7 +3,7 @@
    and completeness are checked on the implementation's traces (see DESIGN.md, C02). *)
 From Coq Require Import List ZArith NArith Bool Arith.
 Import ListNotations.
-From I2N Require Import Model.Retry Model.Traverse Model.TraverseRun Proofs.TraverseProofs Proofs.TraverseInv Proofs.TraverseAvail Proofs.TraverseExit Proofs.TraversePath Proofs.TraverseUid Proofs.TraverseExitN.
+From I2N Require Import Model.Retry Model.Traverse Model.TraverseRun Proofs.TraverseProofs Proofs.TraverseInv Proofs.TraverseAvail Proofs.TraverseExit Proofs.TraversePath Proofs.TraverseUid Proofs.TraverseExitN Proofs.TraverseExcl Proofs.TraverseDefinite Proofs.TraverseComplete.
 Local Open Scope nat_scope.
 
 (* no pick from an exhausted node: the loop picks a child only of a node that is not cleanup-ready
@@ -75,3 +75,30 @@ Theorem C02_exit_means_done_any_workers : forall g p sched v c,
   (stateful (nd g c) = false -> nonobjc g c -> shared_results g (fst r) c <> []).
 Proof. intros g p sched v c Hb. apply exit_means_doneN. now apply ewf_b_sound. Qed.
 Print Assumptions C02_exit_means_done_any_workers.
+
+(* "a definite, non-pending status", for EVERY graph, pool population and schedule in which every awaited test reports a
+   status other than the placeholder (all_definite_b), any number of workers: once no worker is awaiting a test, no result of
+   any node is pending *)
+Theorem C02_no_pending_results_when_nobody_runs : forall g p sched j r,
+  all_definite_b g (init_state g p) sched = true ->
+  let s := fst (run_schedule g (init_state g p) sched) in
+  none_running_b s = true -> In r (results (nst s j)) -> r_status r <> SUnknown.
+Proof.
+  intros g p sched j r Ha s Hn. apply (no_pending_results g p sched j r (all_definite_b_sound g sched _ Ha)). now apply none_running_b_sound.
+Qed.
+Print Assumptions C02_no_pending_results_when_nobody_runs.
+
+(* ... and the second sentence of the property assembled, any number of workers: when worker v has emitted its exit event and no
+   worker is awaiting a test, every leaf test of v that the root reaches over v's ordinary tests has, on some copy of its
+   class, a result with a definite status *)
+Theorem C02_exit_means_definite_result : forall g p sched v c,
+  ewf_b g = true -> all_definite_b g (init_state g p) sched = true ->
+  let r := run_schedule g (init_state g p) sched in
+  none_running_b (fst r) = true -> In (EExit v) (concat (snd r)) -> reachN g v c ->
+  stateful (nd g c) = false -> nonobjc g c ->
+  exists res, In res (shared_results g (fst r) c) /\ r_status res <> SUnknown.
+Proof.
+  intros g p sched v c Hb Ha r Hn. apply (exit_means_definite_result_b g p sched v c Hb (all_definite_b_sound g sched _ Ha)).
+  now apply none_running_b_sound.
+Qed.
+Print Assumptions C02_exit_means_definite_result.
